@@ -165,3 +165,103 @@ func c06MapBounded(ck *Checker, rep *Report, opts *Options) {
 		rep.Extra["map_refinement_run"] = m[1]
 	}
 }
+
+
+// c06KeyKinds: second BOUNDED stand-in of C06 - struct, string, float and
+// interface keys. map.go, alg.go, z_map.go, hash64.go (whole files: package
+// clause renamed, //go:linkname lines dropped) and the four plain-Go helpers of
+// stubs.go are copied from the working tree, linked against the environment
+// harness/c06_keys/shim.go and driven against Go's own map by
+// harness/c06_keys/keys_test.go; every key handed to the map under test lives in
+// a temporary whose padding bytes and blank fields hold garbage, as in compiled
+// code.
+func c06KeyKinds(ck *Checker, rep *Report, opts *Options) {
+	if opts.OnlyFn != "" {
+		return
+	}
+	rtDir := filepath.Join(opts.RepoDir, "runtime", "internal", "runtime")
+	read := func(name string) ([]byte, error) {
+		p := filepath.Join(rtDir, name)
+		if b, ok := opts.Overlay[p]; ok {
+			return b, nil
+		}
+		return os.ReadFile(p)
+	}
+	scratch := filepath.Join(opts.Scratch, "c06keys")
+	os.MkdirAll(scratch, 0o755)
+	pkgDir := filepath.Join(opts.RepoDir, "runtime", "internal", "zzverif", "mapkeys")
+	repl := map[string]string{
+		filepath.Join(pkgDir, "shim.go"):      filepath.Join(opts.VerifDir, "harness", "c06_keys", "shim.go"),
+		filepath.Join(pkgDir, "keys_test.go"): filepath.Join(opts.VerifDir, "harness", "c06_keys", "keys_test.go"),
+	}
+	for _, f := range []string{"map.go", "alg.go", "z_map.go", "hash64.go"} {
+		src, err := read(f)
+		if err != nil {
+			rep.Broken = append(rep.Broken, "c06 key harness: "+err.Error())
+			return
+		}
+		text := regexp.MustCompile(`(?m)^package runtime\s*$`).ReplaceAllString(string(src), "package pkg")
+		text = regexp.MustCompile(`(?m)^//go:linkname .*\n`).ReplaceAllString(text, "")
+		os.WriteFile(filepath.Join(scratch, f), []byte(text), 0o644)
+		repl[filepath.Join(pkgDir, f)] = filepath.Join(scratch, f)
+	}
+	ssrc, err := read("stubs.go")
+	if err != nil {
+		rep.Broken = append(rep.Broken, "c06 key harness: "+err.Error())
+		return
+	}
+	fset := token.NewFileSet()
+	sf, err := goparser.ParseFile(fset, "stubs.go", ssrc, goparser.ParseComments)
+	if err != nil {
+		rep.Broken = append(rep.Broken, "c06 key harness: "+err.Error())
+		return
+	}
+	swant := map[string]bool{"add": true, "roundupsize": true, "memclrHasPointers": true, "memclrNoHeapPointers": true}
+	var stb bytes.Buffer
+	stb.WriteString("package pkg\n\nimport \"unsafe\"\n\nvar _ unsafe.Pointer\n\n")
+	n := 0
+	for _, d := range sf.Decls {
+		if x, ok := d.(*ast.FuncDecl); ok && x.Recv == nil && swant[x.Name.Name] && x.Body != nil {
+			x.Doc = nil
+			n++
+			printer.Fprint(&stb, fset, x)
+			stb.WriteString("\n\n")
+		}
+	}
+	if n != len(swant) {
+		rep.Broken = append(rep.Broken, fmt.Sprintf("c06 key harness: only %d of %d helper functions found in stubs.go", n, len(swant)))
+		return
+	}
+	os.WriteFile(filepath.Join(scratch, "stubs.go"), stb.Bytes(), 0o644)
+	repl[filepath.Join(pkgDir, "stubs.go")] = filepath.Join(scratch, "stubs.go")
+	var sb strings.Builder
+	sb.WriteString(`{"Replace":{`)
+	first := true
+	for a, b := range repl {
+		if !first {
+			sb.WriteString(",")
+		}
+		first = false
+		fmt.Fprintf(&sb, "%q:%q", a, b)
+	}
+	sb.WriteString("}}")
+	ov := filepath.Join(scratch, "overlay.json")
+	os.WriteFile(ov, []byte(sb.String()), 0o644)
+	gobin := os.Getenv("GO")
+	if gobin == "" {
+		gobin = "go"
+	}
+	bin := filepath.Join(scratch, "keystest.bin")
+	cmd := exec.Command(gobin, "test", "-overlay", ov, "-vet=off", "-c", "-o", bin, "./internal/zzverif/mapkeys/")
+	cmd.Dir = filepath.Join(opts.RepoDir, "runtime")
+	if out, err := cmd.CombinedOutput(); err != nil {
+		rep.Broken = append(rep.Broken, "c06 key harness does not build: "+truncate(string(out), 1500))
+		return
+	}
+	run := exec.Command(bin, "-test.run", "TestZZVerifMapKeyKinds", "-test.v", "-test.timeout", "900s")
+	run.Dir = scratch
+	run.Env = append(os.Environ(), "VERIF_C06=1")
+	out, _ := run.CombinedOutput()
+	parseBounded(rep, string(out), "c06keys", 1, "key-kinds-refinement",
+		"8 scenarios of 6000 pseudo-random operations (assign, lookup, delete, range, clear) over 300 keys each: struct keys with padding before a string, interior padding, float fields, blank fields, nested structs, padding-free structs, the same key presented twice with different padding, interface keys holding structs; keys presented in temporaries with zeroed and with garbage padding; compared after every operation with Go's own map")
+}
